@@ -195,6 +195,13 @@ class Ctx:
         self.bind = {}     # parameter -> value of the caller's argument (a wrapper function evaluated at its call site)
         self.assigns, self.aug, self.loops = {}, set(), {}
         self._collect(fn.body)
+        # comprehension / generator variables are loop variables too (for idx, x in enumerate(...) inside "".join(...))
+        for node in ast.walk(fn):
+            if isinstance(node, ast.comprehension):
+                names = [n.id for n in ast.walk(node.target) if isinstance(n, ast.Name)]
+                for i, n in enumerate(names):
+                    if n not in self.loops and n not in self.assigns and n not in self.params:
+                        self.loops[n] = (node.iter, i, len(names))
 
     def _collect(self, body):
         for st in body:
@@ -557,6 +564,12 @@ class Scanner:
             return [H(Hole(ast.unparse(e), "int", f.id + "()", line=e.lineno, conv="d"))]
         if isinstance(f, ast.Name) and f.id == "cast" and len(e.args) == 2:
             return self.ev(e.args[1], cx, depth + 1)
+        # "".join(<XML snippet> for ... in ...): the snippets are accumulated exactly as by  xml += snippet  in a loop
+        if isinstance(f, ast.Attribute) and f.attr == "join" and isinstance(f.value, ast.Constant) and isinstance(f.value.value, str) \
+                and len(e.args) == 1 and isinstance(e.args[0], (ast.GeneratorExp, ast.ListComp)) and not e.keywords:
+            elt = self.ev(e.args[0].elt, cx, depth + 1)
+            if is_xml(elt) or (elt and is_frag_only(elt) and not all_lit(elt)):
+                return [H(Hole(ast.unparse(e), "frag", "XML accumulated by join in " + cx.qual(), frag=cx.mod.rel + ":" + cx.qual(), line=e.lineno))]
         # str.format
         if isinstance(f, ast.Attribute) and f.attr == "format":
             t = self.ev(f.value, cx, depth + 1)
